@@ -5,12 +5,12 @@ namespace Eru.Txn
 def outcomeOf (ok : Bool) : Out := if ok then .ok else .fail
 
 /-- the outcome of `then` as produced by its body in the world left by `cond` -/
-def thenOutcome {σ} (cond : Body σ) (thn : Option (Body σ)) (rb : Option (Bool → Body σ)) (c : Cancel) (s : σ) : Opt :=
+def thenOutcome {σ} (cond : Body σ) (thn : Option (Body σ)) (rb : Option (Bool → Body σ)) (c : Cancel) (sl : Slow) (s : σ) : Opt :=
   match thn with
   | none => .absent
   | some f =>
     let k : Ctx := if rb.isNone then .inherit else .txn
-    .present (outcomeOf (f k (view k c) (cond .txn (view .txn c) s).2).1)
+    .present (outcomeOf (f k (view k .thn c sl) (cond .txn (view .txn .cond c sl) s).2).1)
 
 def rbOutcome {σ} (rb : Option (Bool → Body σ)) : Opt :=
   match rb with | none => .absent | some _ => .present .ok
@@ -21,24 +21,25 @@ def invOf (c : Call) : Inv := (c.step, c.ctx, c.byCond)
 invocations (step, context kind, flag) are those of the table entry selected by the outcomes the
 bodies produced, and the final world is obtained by running exactly the invoked bodies, once each,
 in that order (no body runs outside the trace). -/
-theorem txnM_eq_table {σ : Type} (cond : Body σ) (thn : Option (Body σ)) (rb : Option (Bool → Body σ)) (c : Cancel) (s : σ) :
-    let t := txn (outcomeOf (cond .txn (view .txn c) s).1) (thenOutcome cond thn rb c s) (rbOutcome rb) c
-    (txnM cond thn rb c s).1 = t.ret ∧ (txnM cond thn rb c s).2.1 = t.calls.map invOf ∧
-    (txnM cond thn rb c s).2.2 = (txnM cond thn rb c s).2.1.foldl (applyInv cond thn rb c) s := by
+theorem txnM_eq_table {σ : Type} (cond : Body σ) (thn : Option (Body σ)) (rb : Option (Bool → Body σ)) (c : Cancel) (sl : Slow) (s : σ) :
+    let t := txn (outcomeOf (cond .txn (view .txn .cond c sl) s).1) (thenOutcome cond thn rb c sl s) (rbOutcome rb) c sl
+    (txnM cond thn rb c sl s).1 = t.ret ∧ (txnM cond thn rb c sl s).2.1 = t.calls.map invOf ∧
+    (txnM cond thn rb c sl s).2.2 = (txnM cond thn rb c sl s).2.1.foldl (applyInv cond thn rb c sl) s := by
   unfold txnM thenOutcome rbOutcome
-  rcases hc : cond .txn (view .txn c) s with ⟨ok, s1⟩
+  rcases hc : cond .txn (view .txn .cond c sl) s with ⟨ok, s1⟩
   cases ok <;> cases thn <;> cases rb <;> simp [txn, outcomeOf, mkCall, invOf, applyInv, hc]
   all_goals (split <;> simp_all [mkCall, invOf, applyInv])
 
 /-- what a body observes of its context is fixed by the context kind and the cancellation point:
 the entry/exit observations recorded in the table are exactly `view` at the step's entry/exit time -/
-theorem observed_view : ∀ cond thn rb c, ∀ k ∈ (txn cond thn rb c).calls,
-    k.cancelledAtEntry = view k.ctx c (entryRank k.step) ∧ k.cancelledAtExit = view k.ctx c (exitRank k.step) := by decide
+theorem observed_view : ∀ cond thn rb c sl, ∀ k ∈ (txn cond thn rb c sl).calls,
+    k.cancelledAtEntry = view k.ctx k.step c sl (entryRank k.step) ∧
+    k.cancelledAtExit = view k.ctx k.step c sl (exitRank k.step) := by decide
 
 /-- which bodies run, in which order, with which context kind and flag does not depend on when (or
 whether) the caller cancels — only on the outcomes -/
-theorem trace_independent_of_cancellation : ∀ cond thn rb c,
-    (txn cond thn rb c).calls.map invOf = (txn cond thn rb .never).calls.map invOf ∧
-    (txn cond thn rb c).ret = (txn cond thn rb .never).ret := by decide
+theorem trace_independent_of_cancellation : ∀ cond thn rb c sl,
+    (txn cond thn rb c sl).calls.map invOf = (txn cond thn rb .never .none).calls.map invOf ∧
+    (txn cond thn rb c sl).ret = (txn cond thn rb .never .none).ret := by decide
 
 end Eru.Txn
